@@ -144,4 +144,6 @@ def run(tier):
         rep.unprovable("C03.grammar|cross-check", "grammar reader disagrees with the compiled parser: %s" % pr)
     layout_match.use_conditions(P)
     layout_match.identifier_operands(g, rep, "C03.target", shapes=("target", "branch-target", "call-target"), floor=40)
+    import rules_C10
+    rules_C10.equ_is_lazy(P, rep, "C03.target|equ-of-pc", "`.equ here = pc` / ... / `rjmp here` jumps to the rjmp itself (displacement -1), not to the place of the .equ line")
     return rep
